@@ -335,7 +335,12 @@ func ruleTraceCount(c *Ctx, r *Report, rule string) {
 			}
 			for _, st := range stmts {
 				as, isA := st.(*ast.AssignStmt)
-				if !isA || len(as.Lhs) != 1 || len(as.Rhs) != 1 || as.Tok != token.ASSIGN || !c.isObj(as.Lhs[0], iv) {
+				// off = decoder(off) when the decoder returns the next offset; off += decoder(off) when it returns the length
+				wantTok := token.ASSIGN
+				if dm.Relative > 0 && dm.Absolute == 0 {
+					wantTok = token.ADD_ASSIGN
+				}
+				if !isA || len(as.Lhs) != 1 || len(as.Rhs) != 1 || as.Tok != wantTok || !c.isObj(as.Lhs[0], iv) || (dm.Relative > 0 && dm.Absolute > 0) {
 					continue
 				}
 				call, isC := as.Rhs[0].(*ast.CallExpr)
